@@ -211,7 +211,11 @@ func (m *Manager) AddBinding(mac net.HardwareAddr, ipv4 net.IP) error {
 	if ipv4 != nil {
 		ip4 := ipv4.To4()
 		if ip4 != nil {
-			binding.IPv4Addr = binary.BigEndian.Uint32(ip4)
+			// The eBPF program compares this field with ip->saddr, i.e. with the
+			// four address bytes in network order as they appear in the packet.
+			// Map values are marshalled in native byte order, so the integer has
+			// to be built natively from the bytes to keep them in that order.
+			binding.IPv4Addr = binary.NativeEndian.Uint32(ip4)
 			binding.IPv4Valid = 1
 		}
 	}
@@ -313,15 +317,18 @@ func (m *Manager) AddAllowedRange(network *net.IPNet) error {
 
 	ones, _ := network.Mask.Size()
 
+	// LPM trie keys are matched bit by bit starting at the first data byte,
+	// so the address must be stored in network byte order (as ip->saddr is
+	// when the eBPF program looks it up).
 	type lpmKey struct {
 		Prefixlen uint32
-		IP        uint32
+		IP        [4]byte
 	}
 
 	key := lpmKey{
 		Prefixlen: uint32(ones),
-		IP:        binary.BigEndian.Uint32(ip4),
 	}
+	copy(key.IP[:], ip4)
 
 	var value uint8 = 1
 	if err := m.ranges.Put(&key, &value); err != nil {
